@@ -568,10 +568,14 @@ func (e *Engine) exec(op *Op, hctx context.Context) {
 		e.drv(op.T).Clear(e.Bus)
 		delete(e.model, op.T)
 		e.mut()
+		e.checkEmpty(op.T, "Clear")
 	case ClearAll:
 		ebu.ClearAll(e.Bus)
 		e.model = map[int][]*mreg{}
 		e.mut()
+		for t := range e.P.Types {
+			e.checkEmpty(t, "ClearAll")
+		}
 	case Pub:
 		e.doPub(op, hctx)
 	case Has, Count:
@@ -583,6 +587,15 @@ func (e *Engine) exec(op *Op, hctx context.Context) {
 	case SetPH:
 		e.Bus.SetPanicHandler(e.panicHandler)
 		e.stamp(TEv{K: "ph.set"})
+	}
+}
+
+// checkEmpty: straight after Clear[T] / ClearAll (same goroutine; nothing else changes the registry
+// in an engine program) the queries must report no handler of the type.
+func (e *Engine) checkEmpty(t int, after string) {
+	d := e.drv(t)
+	if n := d.Count(e.Bus); n != 0 || d.Has(e.Bus) {
+		e.fail("registry:not-empty-after-clear", "straight after %s HandlerCount[%s]=%d HasHandlers=%v", after, d.Name(), n, d.Has(e.Bus))
 	}
 }
 
@@ -636,7 +649,13 @@ func (e *Engine) doUnsub(op *Op) {
 			return
 		}
 	}
+	before := e.drv(op.T).Count(e.Bus)
 	err := e.drv(op.T).Unsubscribe(e.Bus, op.Class, op.Ctx)
+	// Unsubscribe removes exactly one registration (nil) or none (error): the count must say so
+	if after := e.drv(op.T).Count(e.Bus); (err == nil && after != before-1) || (err != nil && after != before) {
+		e.fail("registry:unsubscribe-count-delta", "Unsubscribe returned %v but HandlerCount[%s] went %d -> %d", err, e.drv(op.T).Name(), before, after)
+		return
+	}
 	idx := -1
 	for i, r := range e.model[op.T] {
 		if r.spec.Class == op.Class && r.spec.Ctx == op.Ctx && !r.isReplay(e) {
@@ -672,6 +691,12 @@ func (e *Engine) doQuery(op *Op) {
 		}
 	}
 	d := e.drv(op.T)
+	// the two queries describe one registry: taken back to back (nothing else changes the registry in
+	// an engine program) they must agree with each other, whatever a fired once handler counts as
+	if c, h := d.Count(e.Bus), d.Has(e.Bus); h != (c > 0) {
+		e.fail("registry:has-count-disagree", "HasHandlers[%s]=%v but HandlerCount=%d at the same point", d.Name(), h, c)
+		return
+	}
 	if op.K == Count {
 		got := d.Count(e.Bus)
 		if got < n-z || got > n {
